@@ -417,3 +417,140 @@ Lemma mgf_everywhere :
   (forall a b s t, beta3_mgf_exists_at a b s t = true) /\ (forall m s t, normal_mgf_exists_at m s t = true) /\
   (forall m s a b t, truncnormal_mgf_exists_at m s a b t = true).
 Proof. repeat split. Qed.
+
+(* ====================================================================================
+   location/scale rewriting of dist_transformer.py, at moment level, for all k
+   ==================================================================================== *)
+Lemma binsum_zero_loc c k : binsum 0 c k = c k.
+Proof. rewrite <- shift_binomial. apply shift_zero_loc. Qed.
+
+Lemma even_double i : Nat.even (2 * i) = true.
+Proof. rewrite Nat.even_mul. reflexivity. Qed.
+Lemma even_S_double i : Nat.even (S (2 * i)) = false.
+Proof. rewrite Nat.even_succ, <- Nat.negb_even, even_double. reflexivity. Qed.
+
+Lemma locscale_normal mu s2 k :
+  lin_moment (transform_normal_expr mu s2)
+             (normal_get_moment (fst (transform_normal_dist mu s2)) (snd (transform_normal_dist mu s2))) k
+  = (normal_get_moment mu s2 k, 0).
+Proof.
+  unfold transform_normal_expr, transform_normal_dist. cbn [fst snd].
+  unfold lin_moment. cbn [l0 l1]. f_equal.
+  - rewrite normal_locscale. unfold binsum. apply sumn_ext. intros j _.
+    destruct (Nat.Even_or_Odd j) as [[i E]|[i E]]; subst j.
+    + cbn [sqv_pow]. rewrite even_double. cbn [fst]. unfold sqrt_pow. ring.
+    + replace (2 * i + 1)%nat with (S (2 * i)) by lia. rewrite normal_standard_odd. ring.
+  - apply sumn_zero. intros j _.
+    destruct (Nat.Even_or_Odd j) as [[i E]|[i E]]; subst j.
+    + cbn [sqv_pow]. rewrite even_double. cbn [snd]. ring.
+    + replace (2 * i + 1)%nat with (S (2 * i)) by lia. rewrite normal_standard_odd. ring.
+Qed.
+
+Lemma locscale_laplace mu b k :
+  lin_moment (transform_laplace_expr mu b)
+             (laplace_get_moment (fst (transform_laplace_dist mu b)) (snd (transform_laplace_dist mu b))) k
+  = (laplace_get_moment mu b k, 0).
+Proof.
+  unfold transform_laplace_expr, transform_laplace_dist. cbn [fst snd].
+  rewrite lin_moment_rat, laplace_locscale. f_equal. unfold binsum. apply sumn_ext. intros j _.
+  rewrite qpow_1. ring.
+Qed.
+
+Lemma locscale_uniform a b k : a <> b ->
+  lin_moment (transform_uniform_expr a b)
+             (uniform_get_moment (fst (transform_uniform_dist a b)) (snd (transform_uniform_dist a b))) k
+  = (uniform_get_moment a b k, 0).
+Proof.
+  intros H. unfold transform_uniform_expr, transform_uniform_dist. cbn [fst snd].
+  rewrite lin_moment_rat, (uniform_moment_locscale a b k H). f_equal. unfold binsum. apply sumn_ext. intros j _.
+  f_equal. f_equal. unfold uniform_get_moment, unit_uniform_moment.
+  replace (j + 1)%nat with (S j) by lia. rewrite qpow_1, qpow_0_S. field. apply qnat_S_neq0.
+Qed.
+
+(* lamb = numerator / denominator  ~>  denominator * Exponential(numerator) *)
+Lemma locscale_exponential num den k : num <> 0 -> den <> 0 ->
+  lin_moment (transform_exponential_expr num den) (exponential_get_moment (transform_exponential_dist num den)) k
+  = (exponential_get_moment (num / den) k, 0).
+Proof.
+  intros Hn Hd. unfold transform_exponential_expr, transform_exponential_dist.
+  rewrite lin_moment_rat, binsum_zero_loc. f_equal. apply exponential_locscale; assumption.
+Qed.
+
+(* ---------- bundled statements used by props/C08.v ---------- *)
+Lemma du_total :
+  forall a b, (a <= b)%Z -> pmf_total (du_pmf a b) = 1 /\ discreteuniform_get_moment a b 0 = 1.
+Proof. intros a b H. split; [exact (du_pmf_total a b H) | exact (du_moment_0 a b H)]. Qed.
+
+Lemma uniform_moment_spec :
+  forall (a b : Qc) (k : nat), a <> b ->
+    uniform_get_moment a b 0 = 1 /\
+    qnat (S k) * (b - a) * uniform_get_moment a b k = qpow b (S k) - qpow a (S k).
+Proof. intros a b k H. split; [exact (uniform_moment_0 a b H) | exact (uniform_moment_ftc a b k H)]. Qed.
+
+Lemma exponential_moment_spec :
+  forall (lam : Qc) (k : nat), lam <> 0 ->
+    exponential_get_moment lam 0 = 1 /\
+    exponential_get_moment lam (S k) = qnat (S k) / lam * exponential_get_moment lam k.
+Proof. intros l k H. split; [exact (exponential_moment_0 l) | exact (exponential_moment_rec l k H)]. Qed.
+
+Lemma gamma_moment_spec :
+  forall (kappa theta : Qc) (p : nat),
+    gamma_get_moment kappa theta 0 = 1 /\
+    gamma_get_moment kappa theta (S p) = theta * (kappa + qnat p) * gamma_get_moment kappa theta p.
+Proof. intros a t p. split; [exact (gamma_get_moment_0 a t) | exact (gamma_get_moment_rec a t p)]. Qed.
+
+Lemma beta_moment_spec :
+  forall (a b s : Qc) (k : nat), 0 < a + b ->
+    beta3_get_moment a b s 0 = 1 /\
+    beta3_get_moment a b s (S k) = s * ((a + qnat k) / (a + b + qnat k)) * beta3_get_moment a b s k /\
+    beta2_get_moment a b k = beta3_get_moment a b 1 k.
+Proof.
+  intros a b s k H. split; [exact (beta3_get_moment_0 a b s)|].
+  split; [exact (beta3_get_moment_rec a b s k H) | exact (beta2_is_beta3 a b k)].
+Qed.
+
+Lemma normal_moment_spec :
+  forall (mu s2 : Qc) (k : nat),
+    normal_get_moment mu s2 0 = 1 /\ normal_get_moment mu s2 1 = mu /\
+    normal_get_moment mu s2 (S (S k)) = mu * normal_get_moment mu s2 (S k) + qnat (S k) * s2 * normal_get_moment mu s2 k.
+Proof.
+  intros mu s2 k. split; [exact (normal_get_moment_0 mu s2)|].
+  split; [exact (normal_get_moment_1 mu s2) | exact (normal_get_moment_rec mu s2 k)].
+Qed.
+
+Lemma laplace_moment_spec :
+  forall (mu b : Qc) (k : nat),
+    laplace_get_moment mu b 0 = 1 /\ laplace_get_moment mu b 1 = mu /\
+    laplace_get_moment mu b (S (S k)) = qpow mu (S (S k)) + qnat (S (S k)) * qnat (S k) * (b * b) * laplace_get_moment mu b k.
+Proof.
+  intros mu b k. split; [exact (laplace_get_moment_0 mu b)|].
+  split; [exact (laplace_get_moment_1 mu b) | exact (laplace_get_moment_rec mu b k)].
+Qed.
+
+Lemma supports_continuous :
+  (forall a b x, (a <= x /\ x <= b) <-> in_support x (uniform_get_support a b)) /\
+  (forall l x, 0 <= x <-> in_support x (exponential_get_support l)) /\
+  (forall a t x, 0 <= x <-> in_support x (gamma_get_support a t)) /\
+  (forall a b x, (0 <= x /\ x <= 1) <-> in_support x (beta2_get_support a b)) /\
+  (forall a b s x, (0 <= x /\ x <= s) <-> in_support x (beta3_get_support a b s)) /\
+  (forall m s x, in_support x (normal_get_support m s)) /\
+  (forall m b x, in_support x (laplace_get_support m b)) /\
+  (forall m s a b x, (a <= x /\ x <= b) <-> in_support x (truncnormal_get_support m s a b)).
+Proof.
+  split; [exact uniform_support|]. split; [exact exponential_support|]. split; [exact gamma_support|].
+  split; [exact beta2_support|]. split; [exact beta3_support|]. split; [exact normal_support|].
+  split; [exact laplace_support | exact truncnormal_support].
+Qed.
+
+Lemma mgf_domains :
+  (forall l t, exponential_mgf_exists_at l t = true <-> t < l) /\
+  (forall a th t, gamma_mgf_exists_at a th t = true <-> t < 1 / th) /\
+  (forall m b t, laplace_mgf_exists_at m b t = true <-> qabs t < 1 / b) /\
+  (forall p t, bernoulli_mgf_exists_at p t = true) /\ (forall a b t, discreteuniform_mgf_exists_at a b t = true) /\
+  (forall a b t, uniform_mgf_exists_at a b t = true) /\ (forall a b t, beta2_mgf_exists_at a b t = true) /\
+  (forall a b s t, beta3_mgf_exists_at a b s t = true) /\ (forall m s t, normal_mgf_exists_at m s t = true) /\
+  (forall m s a b t, truncnormal_mgf_exists_at m s a b t = true).
+Proof.
+  split; [exact exponential_mgf_domain|]. split; [exact gamma_mgf_domain|]. split; [exact laplace_mgf_domain|].
+  exact mgf_everywhere.
+Qed.
